@@ -414,6 +414,7 @@ def check_delay(P: C.Part, s: Dict[str, Any], res, x: np.ndarray, y: np.ndarray,
         if 0.2 <= phi <= 2.5 and tol < 0.9 * math.sin(phi):
             P.nontrivial.add(("delay", o["scheduler"], order, o["win"], backend, d, L))
             P.hit("delay.sign-decisive")
+            P.hit(f"delay.sign-decisive.{backend}.order{order}")
             if not (H[j].imag < 0 and float(rad[j]) < 0 and float(deg[j]) < 0):
                 viol(P, f"{backend}: lagging output (d={d}, 2*pi*f*d/fs={phi:.3f}) but phase is not negative: Im Hxy={H[j].imag!r}, cf_rad={rad[j]!r}",
                      {**sigb, "sub": "sign"}, s, backend, {"bin": j})
@@ -598,6 +599,7 @@ def edge_stream(P: C.Part, ctx, stats) -> None:
 
 
 def oracle(ctx, intensive: bool = False, hints: List[Dict[str, Any]] = ()) -> C.Part:
+    import time as _t
     P = C.Part()
     stats: Dict[str, float] = {}
     mult = 4 if intensive else 1
@@ -606,6 +608,11 @@ def oracle(ctx, intensive: bool = False, hints: List[Dict[str, Any]] = ()) -> C.
         cuda = CudaAnalyzer()
     except Exception as ex:  # noqa
         P.notes.append(f"CUDA simulator worker unavailable: {ex!r}"[:160])
+    budget = min(ctx.time_left() - 15, (600.0 if ctx.thorough else 80.0) * (2 if intensive else 1))
+    t_start = _t.time()
+
+    def used() -> float:
+        return (_t.time() - t_start) / max(budget, 1.0)
 
     def cs() -> int:
         return int(ctx.rng.integers(0, 2 ** 62))
@@ -613,15 +620,44 @@ def oracle(ctx, intensive: bool = False, hints: List[Dict[str, Any]] = ()) -> C.
     def enough() -> bool:
         return len(P.violations) >= 5
 
+    off = int(ctx.rng.integers(0, 10 ** 6)) * 160
     # 0. corpus (D1) — both backends, compute and compute_single_bin
     for s in corpus_specs():
         run_spec(P, s, BACKENDS, None, stats)
-    # 1. static gain: every scheduler × order × window by rotation, both backends
+    # 3'. CUDA through the simulator (analyzer level): the three cross kernels (orders −1, 0, 1|2) on a pure delay (decides the sign of Im XY),
+    #     one static gain, one single-bin; compared with numba and checked against the property
+    if cuda is not None:
+        n_cu = ctx.scale(6, 16) * (2 if intensive else 1)
+        for i in range(n_cu):
+            if used() > 0.3 or enough():
+                if used() > 0.3:
+                    P.notes.append(f"time budget reached after {i} of {n_cu} CUDA-simulator cases")
+                break
+            mode = "delay" if i % 6 < 4 else ["gain", "single-delay"][i % 2]
+            s = make_spec(mode, off + 1 + 7 * i, cs())
+            s["N"] = 560 + 40 * (i % 3)
+            s["kind"] = "noise"
+            s["o"].update({"Jdes": 8, "Kdes": 3, "olap": 0.5, "order": ORDERS[i % 4], "win": WINS[(i // 4) % 2], "bmin": 1.0})
+            if s["o"]["win"] == "kaiser":
+                s["o"]["psll"] = 60.0
+            if "d" in s:
+                s["d"] = 1
+                s["o"]["Lmin"] = 160
+            else:
+                s["o"]["Lmin"] = 32
+            if mode == "single-delay":
+                s["L"] = 256
+                s["freq"] = 1.0 * s["fs"] / (2 * math.pi * s["d"])
+            s["layout"] = "2xN"
+            run_spec(P, s, ["numba", "cuda"], cuda, stats)
+    else:
+        P.notes.append("CUDA backend not exercised (simulator worker unavailable)")
+    # 1. static gain: every scheduler x order x window by rotation, both backends
     n_gain = ctx.scale(32, 256) * mult
-    off = int(ctx.rng.integers(0, 10 ** 6)) * 160
     for i in range(n_gain):
-        if ctx.time_left() < 90 or enough():
-            P.notes.append("time budget reached in the gain sweep") if ctx.time_left() < 90 else None
+        if used() > 0.6 or enough():
+            if used() > 0.6:
+                P.notes.append(f"time budget reached in the gain sweep after {i} of {n_gain} cases")
             break
         s = make_spec("gain", off + i, cs())
         s["wrapper"] = bool(i % 5 == 0)
@@ -631,7 +667,7 @@ def oracle(ctx, intensive: bool = False, hints: List[Dict[str, Any]] = ()) -> C.
     # 2. pure delay
     n_delay = ctx.scale(24, 192) * mult
     for i in range(n_delay):
-        if ctx.time_left() < 60 or enough():
+        if used() > 0.8 or enough():
             break
         s = make_spec("delay", off + i, cs())
         run_spec(P, s, BACKENDS, None, stats)
@@ -640,7 +676,7 @@ def oracle(ctx, intensive: bool = False, hints: List[Dict[str, Any]] = ()) -> C.
     # 4. single-bin path for (1) and (2)
     n_single = ctx.scale(24, 192) * mult
     for i in range(n_single):
-        if ctx.time_left() < 45 or enough():
+        if used() > 0.95 or enough():
             break
         s = make_spec("single-gain" if i % 2 == 0 else "single-delay", off + i, cs())
         s["wrapper"] = bool(i % 4 == 1)
@@ -666,27 +702,6 @@ def oracle(ctx, intensive: bool = False, hints: List[Dict[str, Any]] = ()) -> C.
                 viol(P, f"get_measurement(f[{j}], 'Hxy')={hm!r} differs from Hxy[{j}]={complex(res.Hxy[j])!r}", {"mode": "glue", "sub": "get_measurement"}, s, "numba", {})
         except Exception as ex:
             P.notes.append(f"glue check skipped: {ex!r}"[:160])
-    # 3'. CUDA through the simulator (analyzer level): small cases, compared with numba and checked against the property
-    if cuda is not None and not enough():
-        n_cu = ctx.scale(3, 12) * (2 if intensive else 1)
-        for i in range(n_cu):
-            if ctx.time_left() < 25:
-                P.notes.append("time budget reached before all CUDA-simulator cases")
-                break
-            mode = ["delay", "gain", "single-delay"][i % 3]
-            s = make_spec(mode, off + 1 + 7 * i, cs())
-            s["N"] = 500 + 40 * (i % 4)
-            s["o"].update({"Jdes": 6, "Kdes": 3, "olap": 0.5})
-            if "d" in s:
-                s["d"] = 1 + i % 2
-                s["o"]["Lmin"] = 128 * s["d"]
-            if mode == "single-delay":
-                s["L"] = 200
-                s["freq"] = 1.0 * s["fs"] / (2 * math.pi * s["d"])
-            s["layout"] = "2xN"
-            run_spec(P, s, ["numba", "cuda"], cuda, stats)
-    elif cuda is None:
-        P.notes.append("CUDA backend not exercised (simulator worker unavailable)")
     if cuda:
         cuda.close()
     P.notes.append("worst observed: " + ", ".join(f"{k}={v:.3g}" for k, v in sorted(stats.items())))
